@@ -84,6 +84,9 @@ struct RunCase {
     runs: u32,
     execs: String,
     rs: u64,
+    /// 0: no evil JSON; 1: ModuleSignatureInfo, every module under one certificate; 2: one module
+    /// listed under two certificates
+    evil: u32,
 }
 
 #[derive(Clone, Debug)]
@@ -109,7 +112,7 @@ fn parse_case(case: &str) -> Option<Case> {
     }
     match f[1] {
         "run" => {
-            if f.len() != 12 {
+            if f.len() != 13 {
                 return None;
             }
             let feat: u32 = field(f[2], "f:")?.parse().ok()?;
@@ -156,7 +159,8 @@ fn parse_case(case: &str) -> Option<Case> {
                 return None;
             }
             let rs: u64 = field(f[11], "rs:")?.parse().ok()?;
-            if feat > 2 || alias > 3 || mods.len() > 64 || thr.len() > 200 || sched.is_empty() || runs == 0 {
+            let evil: u32 = field(f[12], "evil:")?.parse().ok()?;
+            if feat > 2 || alias > 3 || evil > 2 || mods.len() > 64 || thr.len() > 200 || sched.is_empty() || runs == 0 {
                 return None;
             }
             Some(Case::Run(RunCase {
@@ -171,6 +175,7 @@ fn parse_case(case: &str) -> Option<Case> {
                 runs,
                 execs,
                 rs,
+                evil,
             }))
         }
         "cfi" => {
@@ -225,7 +230,7 @@ fn parse_case(case: &str) -> Option<Case> {
 
 fn render_run(c: &RunCase) -> String {
     format!(
-        "det run f:{} exc:{} lim:{}.{} alias:{} mods:{} thr:{} sched:{} runs:{} x:{} rs:{}",
+        "det run f:{} exc:{} lim:{}.{} alias:{} mods:{} thr:{} sched:{} runs:{} x:{} rs:{} evil:{}",
         c.feat,
         c.exc as u32,
         c.lim_n,
@@ -244,7 +249,8 @@ fn render_run(c: &RunCase) -> String {
             .join("|"),
         c.runs,
         c.execs,
-        c.rs
+        c.rs,
+        c.evil
     )
 }
 
@@ -433,6 +439,14 @@ fn build_dump(c: &RunCase) -> Vec<u8> {
         dump = dump.add_exception(e);
     }
     dump.finish().expect("synth dump")
+}
+
+/// the "evil JSON" (`ProcessorOptions::evil_json`): certificate -> signed modules
+fn evil_text(c: &RunCase) -> String {
+    let obj: serde_json::Map<String, serde_json::Value> =
+        evil_certs(c).into_iter().map(|(k, v)| (k, serde_json::Value::from(v))).collect();
+    // the real file carries the object as a STRING holding JSON
+    serde_json::json!({ "ModuleSignatureInfo": serde_json::Value::Object(obj).to_string(), "CPUMicrocodeVersion": "0x2f" }).to_string()
 }
 
 // -------------------------------------------------------------------------------- the supplier
@@ -645,7 +659,7 @@ struct RunOut {
     state: Option<ProcessState>,
 }
 
-fn run_once(bytes: &[u8], c: &RunCase, text: &Arc<Vec<String>>, delays: &[u32], exec: char, seed: u64, keep_state: bool) -> RunOut {
+fn run_once(bytes: &[u8], c: &RunCase, text: &Arc<Vec<String>>, evil: Option<&std::path::Path>, delays: &[u32], exec: char, seed: u64, keep_state: bool) -> RunOut {
     let mut out = RunOut::default();
     let dump = match Minidump::read(bytes) {
         Ok(d) => d,
@@ -676,7 +690,7 @@ fn run_once(bytes: &[u8], c: &RunCase, text: &Arc<Vec<String>>, delays: &[u32], 
         1 => ProcessorOptions::stable_all(),
         _ => ProcessorOptions::unstable_all(),
     };
-    options.evil_json = None;
+    options.evil_json = evil;
     let fut = minidump_processor::process_minidump_with_options(&dump, &provider, options);
     let state = match exec {
         'R' => {
@@ -744,22 +758,85 @@ fn shared_leaf_modules(c: &RunCase) -> BTreeSet<usize> {
     s
 }
 
-/// the JSON document with the per-module symbol statistics of the same-leaf modules removed
-fn mask_stats(json: &[u8], c: &RunCase) -> Option<serde_json::Value> {
+/// certificate table of the evil JSON: certificate -> module file names
+fn evil_certs(c: &RunCase) -> BTreeMap<String, Vec<String>> {
+    let mut certs: BTreeMap<String, Vec<String>> = BTreeMap::new();
+    if c.evil == 0 {
+        return certs;
+    }
+    let names = ["CN=Verif Code Signing A", "CN=Verif Code Signing B", "O=Other Corp", "CN=Third"];
+    let mut leaves: Vec<&str> = c.mods.iter().map(|(p, _)| leaf_of(p)).collect();
+    leaves.sort();
+    leaves.dedup();
+    for (i, l) in leaves.iter().enumerate() {
+        certs.entry(names[i % names.len()].to_string()).or_default().push(l.to_string());
+    }
+    // certificates of modules that are not in the dump (make the map big enough for its order to vary)
+    for k in 0..6 {
+        certs.entry(format!("CN=Unrelated {k}")).or_default().push(format!("unrelated{k}.dll"));
+    }
+    if c.evil == 2 {
+        // dual-signed: the first leaf is ALSO listed under two other certificates
+        certs.entry("CN=Second Signature".to_string()).or_default().push(leaves[0].to_string());
+        certs.entry("CN=Unrelated 3".to_string()).or_default().push(leaves[0].to_string());
+    }
+    certs
+}
+
+/// file names listed under more than one certificate
+fn multi_cert_leaves(c: &RunCase) -> BTreeSet<String> {
+    let mut n: BTreeMap<String, usize> = BTreeMap::new();
+    for ms in evil_certs(c).values() {
+        for m in ms {
+            *n.entry(m.clone()).or_default() += 1;
+        }
+    }
+    n.into_iter().filter(|(_, k)| *k > 1).map(|(m, _)| m).collect()
+}
+
+/// the JSON document with (stats) the per-module symbol statistics of the same-leaf modules and/or
+/// (cert) the certificate of the modules listed under several certificates removed
+fn mask_json(json: &[u8], c: &RunCase, stats: bool, cert: bool) -> Option<serde_json::Value> {
     let mut v: serde_json::Value = serde_json::from_slice(json).ok()?;
     let shared = shared_leaf_modules(c);
+    let multi = multi_cert_leaves(c);
     let mods = v.get_mut("modules")?.as_array_mut()?;
     for m in mods.iter_mut() {
         let base = u64::from_str_radix(m.get("base_addr")?.as_str()?.trim_start_matches("0x"), 16).ok()?;
         let idx = (0..c.mods.len()).find(|i| mod_base(*i) == base)?;
-        if shared.contains(&idx) {
-            let o = m.as_object_mut()?;
+        let o = m.as_object_mut()?;
+        if stats && shared.contains(&idx) {
             for k in ["missing_symbols", "loaded_symbols", "corrupt_symbols", "symbol_url", "debug_file", "debug_id"] {
                 o.remove(k);
             }
         }
+        if cert && multi.contains(leaf_of(&c.mods[idx].0)) {
+            o.remove("cert_subject");
+        }
     }
     Some(v)
+}
+
+/// the text report with the ` (<certificate>)` suffix of the multi-certificate modules' lines removed
+fn mask_text(text: &[u8], c: &RunCase) -> Vec<u8> {
+    let multi = multi_cert_leaves(c);
+    let certs = evil_certs(c);
+    let s = String::from_utf8_lossy(text);
+    let mut out = String::new();
+    for line in s.lines() {
+        let mut l = line.to_string();
+        if multi.iter().any(|m| line.contains(&format!("  {m}  "))) {
+            for name in certs.keys() {
+                if let Some(stripped) = l.strip_suffix(&format!(" ({name})")) {
+                    l = stripped.to_string();
+                    break;
+                }
+            }
+        }
+        out.push_str(&l);
+        out.push('\n');
+    }
+    out.into_bytes()
 }
 
 fn compare(c: &RunCase, base: &RunOut, other: &RunOut, kind: &str, what: &str, oracle: &mut Vec<(String, String)>) {
@@ -772,11 +849,12 @@ fn compare(c: &RunCase, base: &RunOut, other: &RunOut, kind: &str, what: &str, o
     let json_diff = (0..2).find(|i| base.bytes[*i] != other.bytes[*i]);
     let text_diff = (2..4).find(|i| base.bytes[*i] != other.bytes[*i]);
     if let Some(i) = json_diff {
-        // is it exactly the symbol statistics of modules that share a leaf name (F16)?
-        let only_stats = match (mask_stats(&base.bytes[0], c), mask_stats(&other.bytes[0], c), mask_stats(&base.bytes[1], c), mask_stats(&other.bytes[1], c)) {
-                (Some(a), Some(b), Some(a2), Some(b2)) => a == b && a2 == b2,
+        let eq_masked = |stats: bool, cert: bool| -> bool {
+            (0..2).all(|j| match (mask_json(&base.bytes[j], c, stats, cert), mask_json(&other.bytes[j], c, stats, cert)) {
+                (Some(a), Some(b)) => a == b,
                 _ => false,
-            };
+            })
+        };
         let detail = format!(
             "{what}: {} differs; completion order of the supplier calls {:?} vs base {:?}; {}",
             WHICH[i],
@@ -784,17 +862,26 @@ fn compare(c: &RunCase, base: &RunOut, other: &RunOut, kind: &str, what: &str, o
             base.done,
             first_diff(&base.bytes[i], &other.bytes[i])
         );
-        if only_stats && kind != "runs" {
+        // exactly the certificate of a module listed under several certificates (evil.rs)?
+        // exactly the symbol statistics of modules that share a leaf name (F16)? both?
+        if c.evil == 2 && eq_masked(false, true) {
+            oracle.push(("cert-depends-on-hash-order".into(), detail));
+        } else if kind != "runs" && eq_masked(true, false) {
+            oracle.push(("stats-depend-on-completion-order".into(), detail));
+        } else if kind != "runs" && c.evil == 2 && eq_masked(true, true) {
+            oracle.push(("cert-depends-on-hash-order".into(), detail.clone()));
             oracle.push(("stats-depend-on-completion-order".into(), detail));
         } else {
             oracle.push((format!("json-differs-across-{kind}"), detail));
         }
     }
     if let Some(i) = text_diff {
-        oracle.push((
-            format!("text-differs-across-{kind}"),
-            format!("{what}: {} differs; {}", WHICH[i], first_diff(&base.bytes[i], &other.bytes[i])),
-        ));
+        let detail = format!("{what}: {} differs; {}", WHICH[i], first_diff(&base.bytes[i], &other.bytes[i]));
+        if c.evil == 2 && (2..4).all(|j| mask_text(&base.bytes[j], c) == mask_text(&other.bytes[j], c)) {
+            oracle.push(("cert-depends-on-hash-order".into(), detail));
+        } else {
+            oracle.push((format!("text-differs-across-{kind}"), detail));
+        }
     }
 }
 
@@ -965,8 +1052,35 @@ fn extract(c: &RunCase, base: &RunOut) -> Result<Extract, String> {
         }
         _ => (vec![], vec![]),
     };
+    // ---- certificates: the table of the evil JSON (its iteration order inside `handle_evil` is not
+    //      observable: an arbitrary one is handed to the model) and the modules under exactly one
+    //      certificate; the multi-certificate modules are the known finding
+    let multi = multi_cert_leaves(c);
+    let certs_in: Vec<String> = {
+        let mut v: Vec<(String, Vec<String>)> = evil_certs(c).into_iter().collect();
+        let mut rng = Rng::new(c.rs ^ 0xce27);
+        for i in (1..v.len()).rev() {
+            v.swap(i, rng.below(i as u64 + 1) as usize);
+        }
+        v.iter().map(|(k, ms)| format!("{}={}", hex(k.as_bytes()), ms.iter().map(|m| hex(m.as_bytes())).collect::<Vec<_>>().join("+"))).collect()
+    };
+    let mut cshown_in = vec![];
+    let mut cert_out = vec![];
+    if c.evil > 0 {
+        for (pos, m) in jm.iter().enumerate() {
+            let leaf = leaf_of(&c.mods[order[pos]].0);
+            if multi.contains(leaf) {
+                continue;
+            }
+            cshown_in.push(hex(leaf.as_bytes()));
+            cert_out.push(match m["cert_subject"].as_str() {
+                Some(s) => hex(s.as_bytes()),
+                None => "0".to_string(),
+            });
+        }
+    }
     let request = format!(
-        "det model lim:{} mods:{} done:{} thr:{}/{} fixed:{} valid:{} jvalid:{}",
+        "det model lim:{} mods:{} done:{} thr:{}/{} fixed:{} valid:{} jvalid:{} certs:{} cshown:{}",
         list(lim_in),
         list(mods_in),
         list(done_in),
@@ -974,15 +1088,18 @@ fn extract(c: &RunCase, base: &RunOut) -> Result<Extract, String> {
         list(thr_in),
         list(fixed),
         list(valid_in),
-        list(jvalid_in)
+        list(jvalid_in),
+        list(certs_in),
+        list(cshown_in)
     );
     let out = format!(
-        "lim:{} stats:{} thr:{} text:{} json:{}",
+        "lim:{} stats:{} thr:{} text:{} json:{} cert:{}",
         lim_out.join(","),
         stats_out.join(","),
         thr_out.join(","),
         text_out.join(","),
-        json_out.join(",")
+        json_out.join(","),
+        cert_out.join(",")
     );
     Ok(Extract { request, out })
 }
@@ -1181,7 +1298,15 @@ fn exec_run(c: &RunCase) -> ImplResult {
     let mut res = ImplResult::default();
     let bytes = build_dump(c);
     let text: Arc<Vec<String>> = Arc::new((0..c.mods.len()).map(|i| symbol_text(c, i)).collect());
-    let base = run_once(&bytes, c, &text, &c.sched[0], 'B', c.rs, true);
+    let evil_file = if c.evil > 0 {
+        let mut f = tempfile::NamedTempFile::new().expect("temp file");
+        std::io::Write::write_all(&mut f, evil_text(c).as_bytes()).expect("write evil json");
+        Some(f)
+    } else {
+        None
+    };
+    let evil: Option<&std::path::Path> = evil_file.as_ref().map(|f| f.path());
+    let base = run_once(&bytes, c, &text, evil, &c.sched[0], 'B', c.rs, true);
     let mut n_runs = 1usize;
     // debugging aid for replays: VERIF_DET_DUMP=<dir> keeps the dump, the symbol files and the base reports
     if let Ok(dir) = std::env::var("VERIF_DET_DUMP") {
@@ -1203,10 +1328,10 @@ fn exec_run(c: &RunCase) -> ImplResult {
     // whose `RandomState` keys are drawn afresh)
     for r in 1..c.runs {
         let o = if r % 2 == 1 {
-            std::thread::scope(|s| s.spawn(|| run_once(&bytes, c, &text, &c.sched[0], 'B', c.rs, false)).join())
+            std::thread::scope(|s| s.spawn(|| run_once(&bytes, c, &text, evil, &c.sched[0], 'B', c.rs, false)).join())
                 .unwrap_or_else(|_| RunOut { err: Some("panic".into()), ..Default::default() })
         } else {
-            run_once(&bytes, c, &text, &c.sched[0], 'B', c.rs, false)
+            run_once(&bytes, c, &text, evil, &c.sched[0], 'B', c.rs, false)
         };
         n_runs += 1;
         compare(c, &base, &o, "runs", &format!("run #{r} (executor B, base schedule)"), &mut res.oracle);
@@ -1218,7 +1343,7 @@ fn exec_run(c: &RunCase) -> ImplResult {
             if si == 0 && x == 'B' {
                 continue;
             }
-            let o = run_once(&bytes, c, &text, tab, x, c.rs.wrapping_add(si as u64 * 977), false);
+            let o = run_once(&bytes, c, &text, evil, tab, x, c.rs.wrapping_add(si as u64 * 977), false);
             n_runs += 1;
             orders.insert(o.done.clone());
             // the schedule differs, or only the executor
@@ -1272,6 +1397,7 @@ fn exec_run(c: &RunCase) -> ImplResult {
     if c.exc {
         res.tags.push("exception-stream".into());
     }
+    res.tags.push(format!("evil-json:{}", c.evil));
     res
 }
 
@@ -1360,6 +1486,11 @@ fn gen_run(rng: &mut Rng, i: u64, tier: Tier) -> RunCase {
         runs: if nt > 30 { 3 } else { 5 },
         execs: execs.to_string(),
         rs: rng.below(1 << 32),
+        evil: match i % 7 {
+            2 => 1,
+            5 => 2,
+            _ => 0,
+        },
     }
 }
 
